@@ -72,6 +72,14 @@ PLAN = {
  "C13i-text-writer-blocks-unseparated": ["C13", "C07"], "C14i-fst-first-axis-clamped": ["C14"], "C15i-fortran-one-axis-accepted": ["C15"],
  "C16i-npy-cut-at-next-magic": ["C16"], "C17i-zero-axis-npy-shape": ["C17"], "C18i-prefix-skipped-when-compression-preset": ["C18"],
  "C19i-view-iter-last-override": ["C19"],
+ # round 10
+ "C01j-positional-lookup-when-all-selected": ["C01"], "C02j-multiallelic-early-insufficient": ["C02"], "C03j-project-rescaled-by-total": ["C03"],
+ "C04j-bounds-check-last-axis-only": ["C04"], "C05j-diagonal-midpoint-form": ["C05"], "C06j-precision-zero-through-i64": ["C06"],
+ "C07j-npy-values-single-write": ["C07"], "C08j-haploid-contig-names": ["C08"], "C09j-samples-file-second-field-only": ["C09"],
+ "C10j-gt-less-records-dropped": ["C10"], "C11j-totals-carried-after-complete-site": ["C11"], "C12j-format-detect-read-not-exact": ["C12"],
+ "C13j-text-writer-prerounds": ["C13"], "C14j-f3-third-frequency-by-second-size": ["C14"], "C15j-decode-from-one-fill-buf": ["C15"],
+ "C16j-text-reader-deletes-cr": ["C16"], "C17j-genotype-table-by-position": ["C17"], "C18j-guard-records-interrupted": ["C18"],
+ "C19j-axis-iter-fold-override": ["C19"],
 }
 OWN_ONLY = "--own" in sys.argv          # only the check of the seed's own property (the first one planned)
 seeds = [a for a in sys.argv[1:] if a != "--own"] or sorted(PLAN)
